@@ -126,7 +126,7 @@ type WorkerSpec struct {
 	MemKB       int      // ulimit -v in KB (0 = none)
 	AlwaysLogs  bool     // cases are always logged (expensive cases): no careful re-run needed
 	WallLimit   time.Duration
-	StallCPU    float64 // CPU-seconds without progress that mean non-termination (default 20)
+	StallCPU    float64 // CPU-seconds without progress that mean non-termination (default 45)
 	PerShardEnv func(shard int) []string
 	callID      int64
 }
@@ -161,7 +161,7 @@ func (c *Ctx) RunWorkers(spec WorkerSpec) (*ShardResult, []Death) {
 	}
 	spec.callID = workerCalls.Add(1)
 	if spec.StallCPU == 0 {
-		spec.StallCPU = 20
+		spec.StallCPU = 45
 	}
 	if spec.WallLimit == 0 {
 		spec.WallLimit = 30 * time.Minute
